@@ -6,6 +6,7 @@ import SphericalVerif.Gen.CPowKern
 import SphericalVerif.Gen.RotHKern
 import SphericalVerif.Gen.EulerKern
 import SphericalVerif.Gen.MethodKern
+import SphericalVerif.Gen.MulKern
 import SphericalVerif.Model.Assemble
 import SphericalVerif.Model.W3j
 import SphericalVerif.Spec.Orderings
@@ -67,6 +68,15 @@ def parseCxArray (toks : List String) : Array (Cx Float) := Id.run do
   for i in [0:a.size/2] do
     out := out.push ⟨bf a[2*i]!, bf a[2*i+1]!⟩
   return out
+
+/-- `calc.calculate(j2, j3, m2, m3)` of a `Wigner3jCalculator` of the given size, as an operation on the flat memory: the result array
+    (the 3-j model `W3j.calculate`) is stored in the calculator's array `id` -/
+def w3jStore (size : Nat) (id : Nat) (j2 j3 m2 m3 : Int) (st : HFMem Float) : HFMem Float := Id.run do
+  let r := W3j.calculate (α := Float) size (Array.replicate (4*size) 0.0) j2 j3 m2 m3
+  let mut st := st
+  for i in [0:size] do
+    st := fwr (α := Float) st id (i : Int) (r.f.getD i 0.0)
+  return st
 
 def step (line : String) : String :=
   match (line.trimAscii.toString.splitOn " ").filter (· ≠ "") with
@@ -219,6 +229,19 @@ def step (line : String) : String :=
     let n := (Gen.WignerDsize ellmin.toInt! L L).toNat
     String.intercalate " " ((List.range N).flatMap (fun (r : Nat) =>
       (List.range n).map (fun (i : Nat) => cxs (frdC (α := Float) st (7 + r) ((i : Nat) : Int)))))
+  | "genmul" :: L1 :: L2 :: Lfg :: sf :: sg :: rest =>
+    -- the GENERATED `_multiplication_helper` (Gen/MulKern.lean): f, g from ell = 0; the two calculators are the arrays 4 and 5,
+    -- `calculate` is the 3-j model (`W3j.calculate`) storing its result array there; output array 3 starts zero-filled
+    let L1 := L1.toNat!; let L2 := L2.toNat!; let Lfg := Lfg.toNat!
+    let nf := (L1+1)*(L1+1)
+    let fa := parseCxArray (rest.take (2*nf))
+    let ga := parseCxArray (rest.drop (2*nf))
+    let size := L1 + L2 + 1
+    let wcalc := w3jStore size
+    let st0 : HFMem Float := { map := ∅, dflt := 0.0 }
+    let st := Gen.u_multiplication_helper (α := Float) (cxFun fa) 0 L1 sf.toInt! (cxFun ga) 0 L2 sg.toInt! 3 0 Lfg (sf.toInt! + sg.toInt!)
+      4 5 (Float.ofBits 0x400921FB54442D18) wcalc st0
+    String.intercalate " " ((List.range ((Lfg+1)*(Lfg+1))).map (fun (i : Nat) => cxs (frdC (α := Float) st 3 ((i : Nat) : Int))))
   | ["dfull", L, ellmin, c, s, dflt] =>
     let L := L.toNat!
     let st := runHF L L (bf c) (bf s) (bf dflt)
